@@ -8,7 +8,15 @@ Legs (DESIGN 3.3):
               parameter / local lists against `drv_c04 frame`;
       path  : `(char *)&lvalue - (char *)&object` printed by the chibicc-compiled program against `drv_c04 path`;
       alloca: block addresses relative to a local, printed by the chibicc-compiled program, against `drv_c04 alloca`;
-      bfmodel: bytes of the storage unit after `s.f = v` in the chibicc-compiled program against `drv_c04 bfmodel`.
+      bfmodel: bytes of the storage unit after `s.f = v` in the chibicc-compiled program against `drv_c04 bfmodel`;
+      seqtext: the lines of `cast(from, _Bool); store(_Bool)`, of the struct-store byte loop, of push_struct and of
+              copy_struct_mem in `chibicc -S` against `drv_c04 boolseq / structseq / pushseq / retseq`;
+      x86cpu : the model's own sequences (bit-field assign + load for (type, width, offset) triples, _Bool store, the three
+              byte loops) assembled and run on the host CPU against `X86.run` of the same lists (`drv_c04 x86bf / x86bool /
+              x86copy / x86push / x86ret`): ties Model/X86 — what the machine-level theorems (Props/C04Machine.lean) are
+              about — to the CPU on exactly these instruction forms;
+      chains : offset / size / changed bytes of `a.b[i].c->d` chains (pointers, unions, anonymous members, flexible array
+              members) in the compiled program against `drv_c04 pathb` (designate, gen_addr, pathOk, enclosing, offset sum).
   spec <-> gcc    (validates Spec/C04Spec.lean and `designate`; a difference is a spec bug -> corr.disagreements)
   code <-> gcc / self-checks  (the property itself -> corr.violations): byte images after a store through a generated
       lvalue, read-back values, values of assignment expressions, whole-struct assignment, pass/return by value,
@@ -19,25 +27,31 @@ from .framework import *
 
 PROPERTY = 'C04'
 GEN_MODULES = ['declspec', 'c04gen']
-LEAN_TARGETS = ['ChibiVerif.Props.C04', 'ChibiVerif.Findings.C04']
-PROPS_FILES = ['ChibiVerif/Props/C04.lean']
+LEAN_TARGETS = ['ChibiVerif.Props.C04', 'ChibiVerif.Props.C04Machine', 'ChibiVerif.Findings.C04']
+PROPS_FILES = ['ChibiVerif/Props/C04.lean', 'ChibiVerif/Props/C04Machine.lean']
 NEEDS_HOOKS = False
 TRUSTED_BASE = [
     'Lean 4.33.0 kernel; axioms admitted: propext, Classical.choice, Quot.sound (audited per theorem on every run)',
     'translator tools/extract/c04gen.py (bit-field arms, load/store tails, byte loops, assign_lvar_offsets arithmetic, '
     'builtin_alloca instruction list) and tools/extract/declspec.py (align_to, type.c literals); both refuse shapes they do not know',
-    'hand-written meaning of the regenerated instruction lists: Model/BitField.lean (registers as BitVec 64), Model/Alloca.lean '
-    '(state machine + ascending byte copy), Model/Copy.lean (byte loops, rep stosb), Model/Lval.lean (struct_ref, new_add, gen_addr), '
-    'Model/Frame.lean (the two loops of assign_lvar_offsets); tied by text equality of the emitted lines / offsets and by running '
-    'the compiled programs (which is testing)',
-    'x86-64 semantics of mov/and/or/shl/shr/sar/movsx/movzx/rep stosb as written in those models; gcc 12 and the host CPU as the '
-    'independent implementation of C11 6.5.2.1-3, 6.5.16, 6.7.2.1 and the psABI',
+    'Model/X86.lean (executable x86-64 semantics, shared with C01) for the bit-field load / assign sequences, integer load / store, '
+    'the conversion to _Bool and the three struct byte loops: the theorems of Props/C04Machine.lean are about X86.run of the regenerated '
+    'instruction lists; Model/X86 is validated against the host CPU on exactly these sequences on every run (leg x86cpu)',
+    'hand-written meaning, not derived from Model/X86: Model/Alloca.lean (state machine + ascending byte copy: the emitted loop has '
+    'jumps and a hexadecimal immediate, which Model/X86 does not decode), `rep stosb` in Model/Copy.lean (ND_MEMZERO), Model/Lval.lean '
+    '(struct_ref, new_add, gen_addr), Model/Frame.lean (the two loops of assign_lvar_offsets); tied by text equality of the emitted '
+    'lines / offsets and by running the compiled programs (which is testing)',
+    'gcc 12 and the host CPU as the independent implementation of C11 6.5.2.1-3, 6.5.16, 6.7.2.1 and the psABI',
     'member offsets are inputs of the lvalue-path model (struct_decl belongs to C08); which parameters travel on the stack is an '
     'input of the frame model (classification belongs to C06)',
 ]
 ASSUMPTIONS = [
-    'addresses are unbounded integers in the alloca / copy / path models (no wrap-around of the address space, stack exhaustion not modelled)',
-    '%rbp is 16-byte aligned at run time (psABI); alignments above 16 on automatic objects are not honoured by chibicc (stack is never realigned)',
+    'addresses are unbounded integers in the alloca / Int-copy / path models (no wrap-around of the address space, stack exhaustion not modelled); '
+    'the machine-level theorems use 64-bit wrapping addresses and state the no-wrap condition where they need it',
+    '%rbp is 16-byte aligned at run time (psABI 3.2.2; hypothesis `hrbp` of C04_frame_aligned); alignments are powers of two; alignments above 16 on '
+    'automatic objects are not honoured by chibicc (stack is never realigned): C04_frame_aligned guarantees min(align, 16), Findings shows this is sharp',
+    'the layout invariant `fits` (every member inside its aggregate) is an input of C04_path_in_bounds (struct_decl belongs to C08); array indices in '
+    'range (`pathOk`); what a pointer points to is the program\'s business (the enclosing object moves to the pointee)',
     'alloca / VLA sizes are below 2^32 - 15 (the emitted `and $0xfffffff0, %edi` truncates larger requests)',
     'frames are smaller than 2 GiB (C int arithmetic of assign_lvar_offsets modelled in Int)',
     'plain char/short/int/long bit-fields are signed (psABI, gcc); enum bit-fields behave as int',
@@ -179,7 +193,7 @@ def decl(t, name):
     if k == 'ptr':
         return decl(t[1], f'(*{name})') if t[1][0] == 'arr' else decl(t[1], f'*{name}')
     if k == 'arr':
-        return decl(t[1], f'{name}[{t[2]}]')
+        return decl(t[1], f'{name}[{t[2] if t[2] else ""}]')
     if k in ('struct', 'union'):
         return f'{k} {t[1]} {name}' if t[1] else f'{agg_body(t)} {name}'
     raise ValueError(t)
@@ -796,6 +810,7 @@ def leg_frames(ctx, corr, nfn, tagbase='frm', collect=None, tie=True):
            'void sink(void *p) {}\n'
            'void probe(int fn, const char *n, void *p, unsigned long sz, int al) { P[np++] = (struct P){fn, n, (uintptr_t)p, sz, al}; }\n'
            'void endprobe(int fn) { for (int i = 0; i < np; i++) { if (P[i].a % P[i].al) printf("f%d misaligned %s %d\\n", fn, P[i].n, P[i].al);\n'
+           '  if (P[i].a % (P[i].al < 16 ? P[i].al : 16)) printf("f%d below16 %s %d\\n", fn, P[i].n, P[i].al);\n'
            '  for (int j = i + 1; j < np; j++) if (P[i].a < P[j].a + P[j].sz && P[j].a < P[i].a + P[i].sz && P[i].sz && P[j].sz) printf("f%d overlap %s %s\\n", fn, P[i].n, P[j].n); }\n'
            '  printf("f%d probed %d\\n", fn, np); np = 0; }\n')
     per = 30
@@ -840,7 +855,7 @@ def leg_frames(ctx, corr, nfn, tagbase='frm', collect=None, tie=True):
             v = {'what': 'program with generated frames fails under chibicc', 'input': src, 'expected': 'runs', 'got': out}
             corr.violations.append(v); viol.append(v)
             return viol
-        bad = [l for l in out if 'misaligned' in l or 'overlap' in l]
+        bad = [l for l in out if 'misaligned' in l or 'overlap' in l or 'below16' in l]    # below16: not even min(align, 16) (C04_frame_aligned)
         for l in bad:
             idx = int(l.split()[0][1:])
             f = fns[idx - base]
@@ -1003,6 +1018,562 @@ def leg_alloca(ctx, corr, nfn, tagbase='alc', collect=None, tie=True):
     corr.sample({'alloca': {'function': fns[-1][0][:500]}})
     return viol
 
+# ------------------------------------------------------------------ leg F: _Bool stores and struct copies (text), the sequences on the host CPU
+
+BOOL_SRC = [('char', 1), ('unsigned char', 1), ('short', 2), ('unsigned short', 2), ('int', 4), ('unsigned', 4), ('long', 8),
+            ('unsigned long', 8), ('char *', 8), ('_Bool', 1)]
+
+def leg_seqtext(ctx, corr):
+    """text tie of `cast(from, _Bool); store(_Bool)` and of the struct-store byte loop against chibicc -S"""
+    src = ['struct WB { char lead; _Bool b; char tail; };']
+    for k, (t, sz) in enumerate(BOOL_SRC):
+        src.append(f'void sb{k}(_Bool *p, {t} v) {{ *p = v; }}')
+        src.append(f'void sm{k}(struct WB *p, {t} v) {{ p->b = v; }}')
+    sizes = [0, 1, 2, 3, 4, 7, 8, 9, 15, 16, 17, 24, 33, 64, 100] + ([ctx.rng.randrange(1, 300) for _ in range(6)] if not ctx.thorough else list(range(101, 180)))
+    sizes = sorted(set(sizes))
+    for n in sizes:
+        src.append(f'struct CP{n} {{ char c[{n}]; }}; void cp{n}(struct CP{n} *d, struct CP{n} *s) {{ *d = *s; }}' if n else
+                   'struct CP0 {}; void cp0(struct CP0 *d, struct CP0 *s) { *d = *s; }')
+    psizes = [n for n in sizes if n >= 17][:8] + [17, 24, 40]        # > 16 bytes: always passed / returned in memory
+    psizes = sorted(set(psizes))
+    for n in psizes:
+        src.append(f'struct PV{n} {{ char c[{n}]; }}; void take{n}(struct PV{n} v); void call{n}(struct PV{n} *p) {{ take{n}(*p); }} '
+                   f'struct PV{n} ret{n}(struct PV{n} *p) {{ return *p; }}')
+    # whole statements `local.member = c` (int bit-fields: the constant needs no conversion)
+    stm = []
+    for n in range(14 if not ctx.thorough else 120):
+        lead = ctx.rng.choice([0, 1, 3, 4, 5, 8, 9, 17])
+        w = ctx.rng.randrange(1, 33)
+        o = ctx.rng.randrange(0, 33 - w)
+        c = ctx.rng.choice([0, 1, 5, 9, 1000, 77, 2147483647, ctx.rng.randrange(0, 2 ** 31)])      # a negative constant is ND_NEG over ND_NUM
+        mems = ([{'name': 'lead', 'ty': ('arr', ('prim', 'char'), lead), 'bits': None}] if lead else []) + \
+               ([{'name': 'pad', 'ty': ('prim', 'int'), 'bits': o}] if o else []) + \
+               [{'name': 'f', 'ty': ('prim', 'int'), 'bits': w}, {'name': 'tail', 'ty': ('prim', 'char'), 'bits': None}]
+        st = ('struct', f'ST{n}', mems)
+        k, o, _ = layout(st)[2][len(mems) - 2]          # byte offset of the unit and bit offset of `f` (it may have moved to the next unit)
+        src.append(f'{agg_body(st)}; void st{n}(void) {{ struct ST{n} s; s.f = {c}; }}')
+        stm.append((n, k, w, o, c))
+    asm, err = asm_of(ctx, '\n'.join(src) + '\n', 'seqtext')
+    if asm is None:
+        corr.violations.append({'what': 'chibicc fails on _Bool stores / struct assignments', 'input': '\n'.join(src), 'expected': 'assembly', 'got': err})
+        return
+    fns = functions(asm)
+    bm = ctx.driver('boolseq', '0\n1\n').splitlines()
+    sm = ctx.driver('structseq', ''.join(f'{n}\n' for n in sizes)).splitlines()
+    if len(bm) != 2 or len(sm) != len(sizes):
+        corr.disagreements.append({'kind': 'seqtext', 'note': 'driver answered a wrong number of lines'})
+        return
+    for k, (t, sz) in enumerate(BOOL_SRC):
+        for fn in (f'sb{k}', f'sm{k}'):
+            corr.evaluations += 1
+            corr.count('boolseq')
+            corr.nontrivial.add(f'boolseq:{fn}')
+            lines = fns.get(fn, [])
+            want = bm[1 if sz <= 4 else 0].split(' | ')      # `_Bool v` too: cast() converts whenever the target is _Bool
+            j = [x for x in range(len(lines)) if lines[x:x + len(want)] == want]
+            # the sequence must be the tail of the function (nothing after the store)
+            if not j or j[-1] + len(want) != len(lines):
+                corr.disagreements.append({'kind': '_Bool store sequence text', 'input': [l for l in src if f' {fn}(' in l][0], 'model': want, 'impl': lines[-8:]})
+                return
+    reqs, metas = [], []
+    for n, k, w, o, c in stm:
+        lines = fns.get(f'st{n}', [])
+        j = [x for x in range(len(lines)) if re.fullmatch(r'lea (-?\d+)\(%rbp\), %rax', lines[x])]
+        if not j:
+            corr.disagreements.append({'kind': 'statement text', 'input': [l for l in src if f' st{n}(' in l][0], 'impl': lines})
+            return
+        d = int(re.fullmatch(r'lea (-?\d+)\(%rbp\), %rax', lines[j[-1]]).group(1))
+        reqs.append(f'{d} {k} {c} int {w} {o}\n')
+        metas.append((n, lines[j[-1]:]))
+    stmodel = ctx.driver('bfstmt', ''.join(reqs)).splitlines() if reqs else []
+    for (n, got), ml in zip(metas, stmodel):
+        corr.evaluations += 1
+        corr.count('bfstmt')
+        corr.nontrivial.add('bfstmt:' + [l for l in src if f' st{n}(' in l][0])
+        if got != ml.split(' | '):
+            corr.disagreements.append({'kind': 'statement text (gen_addr; push; constant; bit-field arm)', 'input': [l for l in src if f' st{n}(' in l][0],
+                                       'model': ml.split(' | '), 'impl': got})
+            return
+    pm = ctx.driver('pushseq', ''.join(f'{n}\n' for n in psizes)).splitlines()
+    for n, ml in zip(psizes, pm):
+        corr.evaluations += 2
+        corr.count('pushseq'); corr.count('retseq')
+        corr.nontrivial.add(f'pushseq:{n}'); corr.nontrivial.add(f'retseq:{n}')
+        want = ml.split(' | ')
+        lines = fns.get(f'call{n}', [])
+        j = [x for x in range(len(lines)) if lines[x] == want[0]]
+        if not j or lines[j[0]:j[0] + len(want)] != want:
+            corr.disagreements.append({'kind': 'push_struct text', 'input': f'struct of {n} bytes passed by value', 'model': want[:5], 'impl': lines[j[0]:j[0] + 5] if j else lines[:12]})
+            return
+        lines = fns.get(f'ret{n}', [])
+        j = [x for x in range(len(lines)) if re.fullmatch(r'mov (-?\d+)\(%rbp\), %rdi', lines[x])]
+        # the hidden pointer is the first parameter: its slot is read back by copy_struct_mem (last match)
+        if not j:
+            corr.disagreements.append({'kind': 'copy_struct_mem text', 'input': f'struct of {n} bytes returned by value', 'impl': lines[-8:]})
+            return
+        off = int(re.fullmatch(r'mov (-?\d+)\(%rbp\), %rdi', lines[j[-1]]).group(1))
+        want = ctx.driver('retseq', f'{off} {n}\n').splitlines()[0].split(' | ')
+        rest = lines[j[-1] + len(want):]
+        if lines[j[-1]:j[-1] + len(want)] != want or rest not in ([], [f'jmp .L.return.ret{n}']):
+            corr.disagreements.append({'kind': 'copy_struct_mem text', 'input': f'struct of {n} bytes returned by value', 'model_tail': want[-4:], 'impl_tail': lines[-4:],
+                                       'model_len': len(want), 'impl_len': len(lines) - j[-1]})
+            return
+    for n, ml in zip(sizes, sm):
+        corr.evaluations += 1
+        corr.count('structseq')
+        if n:
+            corr.nontrivial.add(f'structseq:{n}')
+        lines = fns.get(f'cp{n}', [])
+        want = ml.split(' | ')
+        if lines[-len(want):] != want:
+            corr.disagreements.append({'kind': 'struct store loop text', 'input': f'struct of {n} bytes, *d = *s', 'model_tail': want[-4:], 'impl_tail': lines[-4:],
+                                       'model_len': len(want), 'impl_len': len(lines)})
+            return
+
+CPU_FN = ('seq_{n}:\n  push %rbx\n  push %r12\n  mov %rdx, %rbx\n  push %rdi\n  mov %rsp, %r12\n  mov %rsi, %rax\n{body}'
+          '  mov %rax, 0(%rbx)\n  mov %rsp, %r11\n  sub %r12, %r11\n  mov %r11, 16(%rbx)\n{tail}  pop %r12\n  pop %rbx\n  ret\n')
+
+def leg_x86cpu(ctx, corr):
+    """Model/X86 (`X86.run`, what the machine-level theorems are about) against the host CPU on the model's own sequences"""
+    rng = ctx.rng
+    triples = bf_triples(ctx)
+    if not ctx.thorough:
+        keepn = 260
+        triples = sorted(set(rng.sample(triples, min(len(triples), keepn)) + [t for t in triples if t[1] in (1, 8 * BF_TYPES[t[0]][1]) or t[2] == 0][:140]))
+    seqs = ctx.driver('bfseq', ''.join(f'{t} {w} {o}\n' for t, w, o in triples)).splitlines()
+    bools = ctx.driver('boolseq', '0\n1\n').splitlines()
+    csizes = [0, 1, 2, 3, 5, 8, 13, 16, 31] + ([40, 64, 129] if ctx.thorough else [])
+    cseqs = ctx.driver('structseq', ''.join(f'{n}\n' for n in csizes)).splitlines()
+    if len(seqs) != len(triples) or len(bools) != 2 or len(cseqs) != len(csizes):
+        corr.disagreements.append({'kind': 'x86cpu', 'note': 'driver answered a wrong number of lines'})
+        return
+    asm = '  .text\n'
+    nfn = 0
+    def body(text):
+        return ''.join('  ' + l + '\n' for l in text.split(' | ') if l)
+    for (t, w, o), sl in zip(triples, seqs):
+        ml, ma = sl.split(' ## ')
+        asm += CPU_FN.format(n=nfn, body=body(ma[3:]), tail='  mov %rdi, %rax\n' + body(ml[3:]) + '  mov %rax, 8(%rbx)\n')
+        nfn += 1
+    bool_base = nfn
+    for bl in bools:
+        asm += CPU_FN.format(n=nfn, body=body(bl), tail='')
+        nfn += 1
+    copy_base = nfn
+    for cl in cseqs:
+        asm += CPU_FN.format(n=nfn, body=body(cl), tail='')
+        nfn += 1
+    push_base = nfn
+    pseqs = ctx.driver('pushseq', ''.join(f'{n}\n' for n in csizes)).splitlines()
+    for pl in pseqs:
+        # %rdi = the value %rsp has before the sequence (inside the buffer), %rsi = source
+        asm += (f'seq_{nfn}:\n  push %rbx\n  push %r12\n  mov %rdx, %rbx\n  mov %rsp, %r12\n  mov %rdi, %rsp\n  mov %rsi, %rax\n' + body(pl) +
+                '  mov %rax, 0(%rbx)\n  mov %rsp, %r11\n  mov %r11, 16(%rbx)\n  mov %r12, %rsp\n  pop %r12\n  pop %rbx\n  ret\n')
+        nfn += 1
+    ret_base = nfn
+    rseqs = ctx.driver('retseq', ''.join(f'-8 {n}\n' for n in csizes)).splitlines()
+    for rl in rseqs:
+        asm += (f'seq_{nfn}:\n  push %rbp\n  mov %rsp, %rbp\n  push %rdi\n  push %rbx\n  mov %rdx, %rbx\n  mov %rsi, %rax\n' + body(rl) +
+                '  mov %rax, 0(%rbx)\n  pop %rbx\n  add $8, %rsp\n  pop %rbp\n  ret\n')
+        nfn += 1
+    asm += '  .data\n  .globl seq_table\nseq_table:\n' + ''.join(f'  .quad seq_{n}\n' for n in range(nfn))
+    asm += f'  .globl seq_count\nseq_count:\n  .quad {nfn}\n  .section .note.GNU-stack,"",@progbits\n'
+    spath = write(ctx, 'c04seqs.s', asm)
+    exe = os.path.join(ctx.scratch, 'c04x86h')
+    rc, o, e = sh(['gcc', '-O1', '-o', exe, os.path.join(VERIF, 'tools/harness/c04_x86_harness.c'), spath], timeout=300)
+    if rc != 0:
+        corr.disagreements.append({'kind': 'x86cpu', 'note': 'the model\'s sequences do not assemble: ' + e[-600:]})
+        return
+    def rbuf(n=24):
+        r = rng.random()
+        if r < 0.3:
+            return bytes([rng.choice([0x00, 0xff, 0xa5, 0x5a])]) * n
+        return bytes(rng.getrandbits(8) for _ in range(n))
+    cpu_in, ops = [], {'x86bf': [], 'x86bool': [], 'x86copy': [], 'x86push': [], 'x86ret': []}
+    order = []
+    per = 3 if not ctx.thorough else 8
+    for n, (t, w, o) in enumerate(triples):
+        for _ in range(per):
+            b = rbuf().hex()
+            v = rand_value(rng, w) & MASK64
+            cpu_in.append(f'b {n} {b} {v:x}\n')
+            ops['x86bf'].append(f'{t} {w} {o} {b} {v:x}\n')
+            order.append(('x86bf', f'{BF_TYPES[t][0]} f:{w} at bit {o}, buffer {b}, value {v:#x}'))
+    for sm in (0, 1):
+        for v in [0, 1, 2, 0x80, 0x100, 0xff00, 0x10000, 0x80000000, 0xffffffff, 0x100000000, 0xffffffff00000000, 0x8000000000000000, MASK64] + \
+                 [rng.getrandbits(64) for _ in range(12 if not ctx.thorough else 200)]:
+            b = rbuf().hex()
+            cpu_in.append(f'o {bool_base + sm} {b} {v:x}\n')
+            ops['x86bool'].append(f'{sm} {b} {v:x}\n')
+            order.append(('x86bool', f'small={sm}, value {v:#x}'))
+    for k, n in enumerate(csizes):
+        L = 2 * n + 40
+        places = [(0, n + 8), (n + 8, 0), (4, 4), (3, 5), (5, 3)] + [(rng.randrange(0, L - n + 1), rng.randrange(0, L - n + 1)) for _ in range(4 if not ctx.thorough else 30)]
+        for d, sr in places:
+            b = rbuf(L).hex()
+            cpu_in.append(f'c {copy_base + k} {d} {sr} {b}\n')
+            ops['x86copy'].append(f'{n} {d} {sr} {b}\n')
+            order.append(('x86copy', f'size {n}, dst +{d}, src +{sr}'))
+            b = rbuf(L).hex()
+            n8 = align_to(n, 8)
+            if d + n8 <= L:
+                cpu_in.append(f'p {push_base + k} {d + n8} {sr} {b}\n')
+                ops['x86push'].append(f'{n} {d} {sr} {b}\n')
+                order.append(('x86push', f'size {n}, copy lands at +{d}, src +{sr}'))
+            b = rbuf(L).hex()
+            cpu_in.append(f'r {ret_base + k} {d} {sr} {b}\n')
+            ops['x86ret'].append(f'{n} {d} {sr} {b}\n')
+            order.append(('x86ret', f'size {n}, dst +{d}, src +{sr}'))
+    rc, cpu, e = sh([exe], input=''.join(cpu_in), timeout=900)
+    cpu = cpu.splitlines()
+    model = {k: ctx.driver(k, ''.join(v)).splitlines() for k, v in ops.items()}
+    if rc != 0 or len(cpu) != len(order) or any(len(model[k]) != len(ops[k]) for k in ops):
+        corr.disagreements.append({'kind': 'x86cpu', 'note': f'harness rc={rc}, {len(cpu)} cpu lines for {len(order)} cases; model lines '
+                                   + str({k: len(v) for k, v in model.items()}) + ' ' + e[-200:]})
+        return
+    idx = {k: 0 for k in ops}
+    for (kind, what), hw in zip(order, cpu):
+        md = model[kind][idx[kind]]
+        idx[kind] += 1
+        corr.evaluations += 1
+        corr.count('cpu-' + kind)
+        corr.nontrivial.add('cpu:' + hashlib.sha1((kind + what).encode()).hexdigest())
+        if md != hw:
+            corr.disagreements.append({'kind': 'Model/X86 run of the model\'s sequence vs the host CPU', 'sequence': kind, 'case': what, 'cpu': hw, 'model': md})
+            return
+    corr.extra['x86_sequences_run_on_cpu'] = nfn
+    corr.sample({'x86-cpu': {'case': order[0][1], 'cpu_and_model': cpu[0]}})
+
+# ------------------------------------------------------------------ leg G: stores to _Bool lvalues (behaviour)
+
+def leg_boolstore(ctx, corr, ncases, tagbase='bst', collect=None, tie=True):
+    rng = ctx.rng
+    viol = []
+    per = 60
+    vals_int = ['0', '1', '2', '-1', '255', '256', '0x100', '0x8000', '65536', '0x7fffffff', '(-0x7fffffff - 1)', '0x80', '128', '-128']
+    vals_long = vals_int + ['0x100000000L', '0xffffffff00000000UL', '0x8000000000000000UL', '(1L << 40)', '-4294967296L']
+    progs = []
+    for pi in range(0, ncases, per):
+        src = ['#include <stdio.h>', '#include <string.h>',
+               'static void dump(const char *k, void *p, int n) { unsigned char *b = p; printf("%s img=", k); for (int i = 0; i < n; i++) printf("%02x", b[i]); printf("\\n"); }',
+               'struct SB { char a; _Bool b; short c; _Bool d[3]; union { _Bool u; int w; }; struct { _Bool x; } in; };',
+               'struct SB gsb[2]; _Bool gb;']
+        body, cases = [], []
+        for ci in range(pi, min(ncases, pi + per)):
+            t, sz = rng.choice(BOOL_SRC[:-1] + [('float', 4), ('double', 8), ('long double', 16)])
+            if t == 'char *':
+                v = rng.choice(['(char *)0', '(char *)&gb', '(char *)0x100000000UL'])
+            elif t in ('float', 'double', 'long double'):
+                v = rng.choice(['0.0', '-0.0', '0.5', '1.0', '-2.5', '1e-30', '256.0'])
+            else:
+                v = rng.choice(vals_long if sz == 8 else vals_int)
+            form = rng.choice(['ptr', 'member', 'arrow', 'array', 'union', 'nested', 'global', 'complit', 'local'])
+            pat = rng.choice([0x00, 0xff, 0xa5, 0x02])
+            k = f'c{ci}'
+            pre = f'struct SB s, *p = &s; memset(&s, {pat}, sizeof s); {t} v = ({t}){v};'
+            if form == 'ptr':
+                lv, obj, szx = '*q', '&s', 'sizeof s'
+                pre += ' _Bool *q = &s.d[1];'
+            elif form == 'member':
+                lv, obj, szx = 's.b', '&s', 'sizeof s'
+            elif form == 'arrow':
+                lv, obj, szx = 'p->b', '&s', 'sizeof s'
+            elif form == 'array':
+                lv, obj, szx = f'p->d[{rng.randrange(3)}]', '&s', 'sizeof s'
+            elif form == 'union':
+                lv, obj, szx = 's.u', '&s', 'sizeof s'
+            elif form == 'nested':
+                lv, obj, szx = 'p->in.x', '&s', 'sizeof s'
+            elif form == 'global':
+                pre += f' memset(gsb, {pat}, sizeof gsb);'
+                lv, obj, szx = 'gsb[1].b', 'gsb', 'sizeof gsb'
+            elif form == 'complit':
+                pre += f' _Bool *q = &(_Bool){{0}}; memset(q, {pat}, 1);'
+                lv, obj, szx = '*q', 'q', '1'
+            else:
+                pre += f' _Bool lb; memset(&lb, {pat}, 1);'
+                lv, obj, szx = 'lb', '&lb', '1'
+            body.append(f'  {{ {pre} int r = ({lv} = v); dump("{k}", {obj}, {szx}); printf("{k} r=%d rb=%d\\n", r, (int){lv}); }}')
+            cases.append({'k': k, 'type': t, 'value': v, 'form': form, 'pattern': pat, 'lvalue': lv,
+                          'mini': '\n'.join(src) + '\nint main(void) {\n' + body[-1] + '\n  return 0;\n}\n'})
+        src.append('int main(void) {')
+        src += body
+        src.append('  return 0;\n}')
+        progs.append(('\n'.join(src) + '\n', cases))
+    results = list(POOL.map(lambda a: both(ctx, a[1][0], f'{tagbase}{a[0]}'), enumerate(progs)))
+    for (src, cases), ((gok, gout), (cok, cout)) in zip(progs, results):
+        if not gok:
+            raise RuntimeError('gcc rejects a generated _Bool program: ' + str(gout)[-400:])
+        if not cok:
+            v = {'what': 'chibicc fails on a _Bool store program gcc accepts and runs', 'input': src, 'expected': 'same output as gcc', 'got': cout}
+            corr.violations.append(v); viol.append(v)
+            continue
+        gd, cd = {}, {}
+        for l in gout:
+            gd.setdefault(l.split()[0], []).append(l)
+        for l in cout:
+            cd.setdefault(l.split()[0], []).append(l)
+        for c in cases:
+            corr.evaluations += 1
+            corr.count('bool-' + c['form'])
+            corr.nontrivial.add(f"bool:{c['type']}:{c['value']}:{c['form']}:{c['pattern']}")
+            g, ch = gd.get(c['k'], []), cd.get(c['k'], [])
+            if g != ch:
+                v = {'what': 'store to a _Bool lvalue: stored byte is not 0/1 as gcc stores it, a neighbour changed, or the value of the assignment differs',
+                     'input': {'statement': f"{c['type']} v = {c['value']}; r = ({c['lvalue']} = v);", 'object filled with': c['pattern'], 'access': c['form']},
+                     'expected': g, 'got': ch, 'program': c['mini']}
+                corr.violations.append(v); viol.append(v)
+                if collect is None:
+                    return viol
+    return viol
+
+# ------------------------------------------------------------------ leg H: chains  a.b[i].c->d  through pointers, unions, anonymous members, flexible arrays
+
+INT_LEAF = ['char', 'unsigned char', 'short', 'unsigned short', 'int', 'unsigned', 'long', 'unsigned long', '_Bool']
+
+def gen_level(rng, nm, lower, tagp, allow_flex):
+    """a struct/union whose members may use the aggregates in `lower` (by value, as arrays, through pointers)"""
+    kind = 'struct' if rng.random() < 0.8 else 'union'
+    mems = []
+    def member():
+        r = rng.random()
+        if r < 0.25 or not lower:
+            t = ('prim', rng.choice(INT_LEAF))
+            if rng.random() < 0.3:
+                t = ('arr', t, rng.randrange(1, 5))
+            return t
+        sub = rng.choice(lower)
+        r = rng.random()
+        if r < 0.3:
+            return sub
+        if r < 0.55:
+            return ('arr', sub, rng.randrange(1, 4))
+        return ('ptr', sub)
+    for _ in range(rng.randrange(2, 6)):
+        if rng.random() < 0.2:
+            inner_kind = rng.choice(['struct', 'union'])
+            inner = [{'name': nm.fresh(), 'ty': member(), 'bits': None} for _ in range(rng.randrange(1, 4))]
+            mems.append({'name': None, 'ty': (inner_kind, '', inner), 'bits': None})
+        else:
+            mems.append({'name': nm.fresh(), 'ty': member(), 'bits': None})
+    flex = None
+    if allow_flex and kind == 'struct' and rng.random() < 0.5:
+        flex = {'name': nm.fresh('fx'), 'ty': ('arr', ('prim', rng.choice(['char', 'int', 'long', 'short'])), 0), 'bits': None}
+        mems.append(flex)
+    return (kind, tagp, mems), flex is not None
+
+def find_member(t, name, base=0):
+    """(offset, type) of the member `name` designates, descending into anonymous aggregates in declaration order"""
+    _, _, pl = layout(t)
+    for m, (off, bo, bw) in zip(t[2], pl):
+        if m['name'] == name:
+            return base + off, m['ty']
+        if m['name'] is None and m.get('bits') is None:
+            r = find_member(m['ty'], name, base + off)
+            if r:
+                return r
+    return None
+
+def has_flex(t):
+    return t[0] in ('struct', 'union') and any(m['ty'][0] == 'arr' and m['ty'][2] == 0 for m in t[2])
+
+def gen_chain_case(rng, ci):
+    nm = Namer(ci)
+    l2, _ = gen_level(rng, nm, [], f'C{ci}_2', True)
+    l2b, _ = gen_level(rng, nm, [], f'C{ci}_2b', False)
+    l1, _ = gen_level(rng, nm, [l2, l2b], f'C{ci}_1', False)
+    l0, _ = gen_level(rng, nm, [l1, l2b], f'C{ci}_0', False)
+    # flexible-array structs may only be used through pointers (not as members / array elements)
+    def uses_flex_by_value(t):
+        for m in t[2]:
+            x = m['ty']
+            while x[0] == 'arr':
+                x = x[1]
+            if x[0] in ('struct', 'union'):
+                if has_flex(x) or uses_flex_by_value(x):
+                    return True
+        return False
+    if uses_flex_by_value(l1) or uses_flex_by_value(l0):
+        return None
+    decls = [agg_body(x) + ';' for x in (l2, l2b, l1, l0)]
+    ROOT = 1000000
+    cur_ty, cur_addr, expr = l0, ROOT, 'root'
+    obj, obj_base, obj_size = 0, ROOT, size_align(l0)[0]        # object index the current address lies in
+    targets, setup, env, steps = [], [], [], []
+    in_range = True
+    for _ in range(14):
+        k = cur_ty[0]
+        if k == 'prim':
+            break
+        if k == 'arr':
+            if cur_ty[2] == 0:
+                i = rng.randrange(0, 4)          # flexible array member: storage follows the struct
+                in_range = False
+            else:
+                i = rng.randrange(cur_ty[2])
+            steps.append(f'[{i}]')
+            expr += f'[{i}]'
+            cur_addr += i * size_align(cur_ty[1])[0]
+            cur_ty = cur_ty[1]
+            continue
+        if k == 'ptr':
+            pointee = cur_ty[1]
+            tb = 3000000 + 1000000 * len(targets)
+            psz = size_align(pointee)[0]
+            ti = len(targets) + 1
+            if has_flex(pointee):
+                n = 1
+                targets.append((f'union {{ {decl(pointee, "f")}; char raw[{psz + 64}]; }} tgt{ti};', f'tgt{ti}', psz + 64))
+                setup.append(f'{expr} = &tgt{ti}.f;')
+            else:
+                n = rng.randrange(1, 4)
+                targets.append((decl(pointee, f'tgt{ti}[{n}]') + ';', f'tgt{ti}', n * psz))
+                setup.append(f'{expr} = tgt{ti};')
+            env.append((cur_addr, tb))
+            obj, obj_base, obj_size = ti, tb, targets[-1][2]
+            if pointee[0] in ('struct', 'union') and rng.random() < 0.6:
+                ms = named_members(pointee)
+                fx = [m for m in ms if m['ty'][0] == 'arr' and m['ty'][2] == 0]
+                deep = [m for m in ms if m['ty'][0] != 'prim']
+                m = rng.choice(fx) if fx and rng.random() < 0.6 else rng.choice(deep) if deep and rng.random() < 0.6 else rng.choice(ms)
+                steps.append('>' + m['name'])
+                expr += '->' + m['name']
+                off, ty = find_member(pointee, m['name'])
+                cur_addr, cur_ty = tb + off, ty
+            else:
+                i = rng.randrange(n)
+                steps.append(f'[{i}]')
+                expr += f'[{i}]'
+                cur_addr, cur_ty = tb + i * psz, pointee
+            continue
+        ms = [m for m in named_members(cur_ty) if m.get('bits') is None]
+        if not ms:
+            return None
+        deep = [m for m in ms if m['ty'][0] != 'prim']
+        m = rng.choice(deep) if deep and rng.random() < 0.75 else rng.choice(ms)
+        steps.append('.' + m['name'])
+        expr += '.' + m['name']
+        off, ty = find_member(cur_ty, m['name'])
+        cur_addr, cur_ty = cur_addr + off, ty
+    else:
+        return None
+    if cur_ty[0] != 'prim' or not steps:
+        return None
+    leaf = cur_ty[1]
+    lsz = SCALARS[leaf][0]
+    val = '1' if leaf == '_Bool' else f'({leaf})0xdadadadadadadadaUL'
+    return {'decls': decls, 'root_ty': l0, 'targets': targets, 'setup': setup, 'env': env, 'steps': steps, 'expr': expr, 'leaf': leaf,
+            'addr': cur_addr, 'size': lsz, 'obj': obj, 'obj_base': obj_base, 'obj_size': obj_size, 'in_range': in_range, 'value': val,
+            'ser': ser_ty(l0)}
+
+def leg_chains(ctx, corr, ncases, tagbase='chn', collect=None, tie=True):
+    rng = ctx.rng
+    viol = []
+    per = 20
+    progs = []
+    hdr = ['#include <stdio.h>', '#include <string.h>',
+           'static void diff(const char *k, int obj, const void *a, const void *b, int n) { const unsigned char *x = a, *y = b; int lo = -1;',
+           '  for (int i = 0; i <= n; i++) { int ch = i < n && x[i] != y[i]; if (ch && lo < 0) lo = i; if (!ch && lo >= 0) { printf("%s changed %d:%d-%d\\n", k, obj, lo, i); lo = -1; } } }']
+    for pi in range(0, ncases, per):
+        src = list(hdr)
+        calls, cases = [], []
+        for ci in range(pi, min(ncases, pi + per)):
+            c = None
+            want_flex = rng.random() < 0.12
+            for att in range(60):
+                c = gen_chain_case(rng, ci)
+                if c and size_align(c['root_ty'])[0] <= 4000 and (att >= 45 or want_flex == (not c['in_range'])):
+                    break
+                c = None
+            if c is None:
+                continue
+            k = f'c{ci}'
+            c['k'] = k
+            objs = [('root', 'sizeof root')] + [(t[1], f'sizeof {t[1]}') for t in c['targets']]
+            stor = rng.choice(['static ', ''])
+            fn = c['decls'] + [f'static void case{ci}(void) {{', f'  {stor}{decl(c["root_ty"], "root")};'] + [f'  {stor}' + t[0] for t in c['targets']]
+            fn += [f'  static unsigned char sv{j}[{sz}];' for j, (n, sz) in enumerate(objs)]
+            fn += [f'  memset(&{n}, 0xa5, {sz});' for n, sz in objs]
+            fn += ['  ' + st for st in c['setup']]
+            fn += [f'  memcpy(sv{j}, &{n}, {sz});' for j, (n, sz) in enumerate(objs)]
+            on = objs[c['obj']][0]
+            fn += [f'  printf("{k} off=%ld size=%lu\\n", (long)((char *)&({c["expr"]}) - (char *)&{on}), (unsigned long)sizeof({c["expr"]}));',
+                   f'  {c["expr"]} = {c["value"]};']
+            fn += [f'  diff("{k}", {j}, sv{j}, &{n}, {sz});' for j, (n, sz) in enumerate(objs)]
+            fn += [f'  printf("{k} rb=%ld\\n", (long)({c["expr"]}));', '}']
+            c['mini'] = '\n'.join(hdr + fn) + f'\nint main(void) {{ case{ci}(); return 0; }}\n'
+            src += fn
+            calls.append(f'case{ci}();')
+            cases.append(c)
+        src.append('int main(void) { ' + ' '.join(calls) + ' return 0; }')
+        progs.append(('\n'.join(src) + '\n', cases))
+    results = list(POOL.map(lambda a: both(ctx, a[1][0], f'{tagbase}{a[0]}'), enumerate(progs)))
+    allc = [c for _, cs in progs for c in cs]
+    model = ctx.driver('pathb', ''.join(f"{c['ser']} | {' '.join(c['steps'])} | {' '.join(f'{a}={v}' for a, v in c['env'])}\n" for c in allc)).splitlines() if tie and allc else []
+    pred = {id(c): l for c, l in zip(allc, model)}
+    for (src, cases), ((gok, gout), (cok, cout)) in zip(progs, results):
+        if not gok:
+            raise RuntimeError('gcc rejects a generated chain program: ' + str(gout)[-600:])
+        if not cok:
+            v = {'what': 'chibicc fails on a member-chain program gcc accepts and runs', 'input': src, 'expected': 'same output as gcc', 'got': cout}
+            corr.violations.append(v); viol.append(v)
+            continue
+        gd, cd = {}, {}
+        for l in gout:
+            gd.setdefault(l.split()[0], []).append(l)
+        for l in cout:
+            cd.setdefault(l.split()[0], []).append(l)
+        for c in cases:
+            corr.evaluations += 1
+            nptr = len(c['env'])
+            corr.count(f'chain-ptr{min(nptr, 3)}' + ('' if c['in_range'] else '-flex'))
+            corr.nontrivial.add('chain:' + hashlib.sha1((c['ser'] + ' '.join(c['steps'])).encode()).hexdigest())
+            g, ch = gd.get(c['k'], []), cd.get(c['k'], [])
+            rel = c['addr'] - c['obj_base']
+            want = [f"{c['k']} off={rel} size={c['size']}", f"{c['k']} changed {c['obj']}:{rel}-{rel + c['size']}"]
+            if g[:2] != want:
+                # the generator's own expectation (python layout) against gcc: a generator / spec problem, not chibicc's
+                corr.disagreements.append({'kind': 'chain generator vs gcc', 'case': {x: c[x] for x in ('expr', 'steps', 'env', 'addr', 'obj')}, 'gcc': g, 'expected': want, 'program': c['mini']})
+                return viol
+            if g != ch:
+                v = {'what': 'store through a chain of member / index / pointer steps: designated offset, size, changed bytes or read-back differ from gcc',
+                     'input': {'lvalue': c['expr'], 'value': c['value'], 'pointer_steps': nptr}, 'expected': g, 'got': ch, 'program': c['mini']}
+                corr.violations.append(v); viol.append(v)
+                if collect is None:
+                    return viol
+                continue
+            if not tie:
+                continue
+            ml = pred.get(id(c), '')
+            m = re.fullmatch(r'addr=(-?\d+) spec=(-?\d+) size=(\d+) ok=([01]) encl=(-?\d+):(\d+) in=([01]) sum=(\S+) fits=([01]) wf=([01])', ml)
+            if not m:
+                corr.disagreements.append({'kind': 'path model rejects a chain both compilers accept', 'case': c['expr'], 'type': c['ser'], 'steps': c['steps'], 'model': ml})
+                return viol
+            addr, spec, msz, ok, eb, es, inside, ssum, fits, wf = m.groups()
+            eb, es = int(eb), int(es)
+            problems = []
+            if int(spec) != c['addr'] or int(msz) != c['size']:
+                problems.append('spec (designate) differs from the executed programs')
+            if int(addr) != c['addr']:
+                problems.append('gen_addr model differs from the executed programs')
+            if fits != '1' or wf != '1':
+                problems.append('generated type violates fits / allWf')
+            if (ok == '1') != c['in_range']:
+                problems.append('pathOk differs from the generator\'s notion of in-range')
+            if c['in_range'] and (inside != '1' or not (c['obj_base'] <= eb and eb + es <= c['obj_base'] + c['obj_size'])):
+                problems.append('designated object / enclosing object not inside the object the program allocated')
+            if nptr == 0 and c['in_range'] and (ssum != str(c['addr']) or (eb, es) != (1000000, size_align(c['root_ty'])[0])):
+                problems.append('offset sum / enclosing object of a pointer-free path')
+            if nptr > 0 and ssum != 'none':
+                problems.append('offsetTerms defined for a path through a pointer')
+            if problems:
+                corr.disagreements.append({'kind': 'lvalue chain model vs executed program', 'problems': problems, 'lvalue': c['expr'], 'type': c['ser'],
+                                           'steps': c['steps'], 'env': c['env'], 'model': ml, 'program_offset': rel, 'object': c['obj'], 'program': c['mini']})
+                return viol
+    if allc:
+        corr.sample({'chain': {'lvalue': allc[-1]['expr'], 'pointer_steps': len(allc[-1]['env']), 'model': model[-1] if model else None}})
+    return viol
+
 # ------------------------------------------------------------------ corpus and known findings
 
 def leg_corpus(ctx, corr):
@@ -1050,7 +1621,11 @@ def correspond(ctx, corr):
                  'temporaries, nested calls between allocations, 2-D/3-D VLAs; run-time alignment and overlap probes of all live automatic objects. '
                  'chibicc output must equal gcc 12 output and the model prediction (unit bytes, designated address, block addresses). '
                  'non-trivial = field not filling its whole unit at offset 0 / a path of at least one step / a frame with more than two distinct offsets / '
-                 'an allocation history; distinct by the canonical key of the case.')
+                 'an allocation history; distinct by the canonical key of the case. (c) machine: the model\'s instruction lists run on the host CPU '
+                 'against X86.run (bit-field triples x buffers x values, _Bool stores, overlapping and disjoint struct copies); text of _Bool stores, '
+                 'struct store / push_struct / copy_struct_mem loops against chibicc -S; stores to _Bool lvalues of every form from every scalar type '
+                 'against gcc; chains a.b[i].c->d through up to three pointers, unions, anonymous members and flexible array members: offset, size and '
+                 'the exact set of changed bytes against gcc and the path model (designate, gen_addr, pathOk, enclosing object, offset sum).')
     t0 = time.time()
     def lap(name):
         nonlocal t0
@@ -1065,12 +1640,28 @@ def correspond(ctx, corr):
     lap('bfseq')
     if corr.disagreements:
         return
+    leg_seqtext(ctx, corr)
+    lap('seqtext')
+    if corr.disagreements or corr.violations:
+        return
+    leg_x86cpu(ctx, corr)
+    lap('x86cpu')
+    if corr.disagreements:
+        return
     leg_bf_behaviour(ctx, corr, 4000 if not T else 40000)
     lap('bf-behaviour')
     if corr.violations or corr.disagreements:
         return
     leg_aggregates(ctx, corr, 3000 if not T else 30000)
     lap('aggregates')
+    if corr.violations or corr.disagreements:
+        return
+    leg_boolstore(ctx, corr, 2400 if not T else 24000)
+    lap('boolstore')
+    if corr.violations or corr.disagreements:
+        return
+    leg_chains(ctx, corr, 2400 if not T else 24000)
+    lap('chains')
     if corr.violations or corr.disagreements:
         return
     leg_frames(ctx, corr, 900 if not T else 9000)
@@ -1087,7 +1678,7 @@ def correspond(ctx, corr):
 def search(ctx, broken, corr):
     """a proof / the translator / a tie broke and the standard run saw no violation: run the behavioural legs at larger size"""
     c2 = Corr()
-    for leg, n in ((leg_bf_behaviour, 1500), (leg_aggregates, 1000), (leg_frames, 240), (leg_alloca, 160)):
+    for leg, n in ((leg_bf_behaviour, 1500), (leg_aggregates, 1000), (leg_boolstore, 600), (leg_chains, 600), (leg_frames, 240), (leg_alloca, 160)):
         try:
             v = leg(ctx, c2, n, tagbase='srch_' + leg.__name__[4:7], collect=[], tie=False)
         except Exception as e:
@@ -1120,11 +1711,20 @@ MANIFEST = {
                   '(C04_frame_disjoint); for every history of pushes/pops/allocas blocks are 16-aligned, pairwise disjoint, below the locals, above the '
                   'relocated temporaries whose bytes are preserved (C04_alloca, C04_alloca_step, C04_alloca_size, C04_alloca_contents); gen_addr of '
                   'every ./->/[] path incl. anonymous members and VLA elements is base + sum of offsets (C04_member_addr, C04_anonymous_member, '
-                  'C04_vla_size); struct copies move byte i to byte i and ND_MEMZERO zeroes exactly its range (C04_copy, C04_memzero). The instruction '
-                  'lists and arithmetic the theorems talk about are regenerated from codegen.c on every run and compared with chibicc -S line by line; '
-                  'compiled programs are run against gcc 12 and the model.',
-    'level_note': 'Trusted: Lean kernel; the translator; the hand-written meaning of the regenerated instruction lists (registers/memory as pure '
-                  'functions; not derived from Model/X86 by proof); layout offsets (C08) and stack-parameter classification (C06) are inputs. The '
+                  'C04_vla_size), the designated sub-object of every in-range path lies inside the enclosing object and a pointer-free path adds '
+                  'base + sum of member offsets + sum of index*size (C04_path_in_bounds, C04_path_offset_sum); with rbp = 0 mod 16 every automatic '
+                  'object is aligned to min(align, 16), arrays >= 16 bytes and alloca/VLA blocks to 16 (C04_frame_aligned; sharp: Findings); struct '
+                  'copies move byte i to byte i and ND_MEMZERO zeroes exactly its range (C04_copy, C04_memzero). Machine level (Props/C04Machine.lean): '
+                  'X86.run of the regenerated instruction lists - load/store of every integer type at any address (C04_load_x86, C04_store_x86, '
+                  'C04_scalar_roundtrip_x86), _Bool normalisation on store (C04_store_bool), the 13-instruction bit-field read-modify-write and the '
+                  'load for every (type, width, offset) (C04_bf_assign_x86, C04_bf_load_x86, C04_bf_roundtrip_x86, C04_bf_neighbours_x86: every bit of '
+                  'memory outside the field is unchanged), struct assignment / pass / return by value as emitted byte loops (C04_copy_x86, '
+                  'C04_push_struct_x86, C04_copy_struct_mem_x86). The instruction lists and arithmetic the theorems talk about are regenerated from '
+                  'codegen.c on every run and compared with chibicc -S line by line; Model/X86 is run against the host CPU on these lists; compiled '
+                  'programs are run against gcc 12 and the model.',
+    'level_note': 'Trusted: Lean kernel; the translator; Model/X86 (CPU-validated on the sequences used); the hand-written meaning of builtin_alloca '
+                  '(jumps) and rep stosb, of struct_ref/gen_addr and of assign_lvar_offsets; layout offsets (C08) and stack-parameter classification '
+                  '(C06) are inputs. The '
                   'behavioural legs are testing. Alignments above 16 on automatic objects are outside what the frame theorem gives (offsets are aligned '
                   'relative to rbp only).',
     'technique': 'Lean 4: bitwise extensionality over BitVec 64 (bit-fields), induction over variable lists / operation histories / lvalue paths '
